@@ -101,7 +101,78 @@ fn c07_twin_%s_%s() {
 }
 ''' % (tname, op, fns, op, tname, tname, op, "true" if t else "false", base, code, op, op, op)
 
+def chain_harness(t, op):
+    """depth-2 chain: view of a view (thorough tier)"""
+    code, fns = OPS[op]
+    tname = "transposed" if t else "plain"
+    base = "let mut base = (&mut surf).transpose();" if t else "let mut base = &mut surf;"
+    return '''
+//# kind=bounded tier=thorough props=C07 bound="3x4 surface, chain of two view(a..b, c..d) calls with bounds in -4..=4 on the %s surface, operation %s" fns="%s,SurfaceMut::view_mut,Shape::view" | a view of a view denotes the composition of the two selections: %s through it touches / reads exactly those cells
+#[kani::proof]
+#[kani::unwind(14)]
+fn c07_chain_%s_%s() {
+    const T: bool = %s;
+    let b = || -> i64 { let x: i8 = kani::any(); kani::assume(x >= -4 && x <= 4); x as i64 };
+    let (ra, rb, ca, cb) = (b(), b(), b(), b());
+    let (ra2, rb2, ca2, cb2) = (b(), b(), b(), b());
+    let (vh, vw) = if T { (W, H) } else { (H, W) };
+    let rw1 = py_range(ra, rb, vh);
+    let cw1 = py_range(ca, cb, vw);
+    let e1 = rw1.0 == rw1.1 || cw1.0 == cw1.1;
+    let (h1, w1) = if e1 { (0, 0) } else { (rw1.1 - rw1.0, cw1.1 - cw1.0) };
+    let rw2 = py_range(ra2, rb2, h1);
+    let cw2 = py_range(ca2, cb2, w1);
+    let empty = e1 || rw2.0 == rw2.1 || cw2.0 == cw2.1;
+    // composed window in the coordinates of the (transposed?) 3x4 matrix
+    let rw = (rw1.0 + rw2.0, rw1.0 + rw2.1);
+    let cw = (cw1.0 + cw2.0, cw1.0 + cw2.1);
+    let wh = if empty { 0 } else { rw.1 - rw.0 };
+    let ww = if empty { 0 } else { cw.1 - cw.0 };
+    let mut surf = fresh();
+    let ins_pos = Position { row: kani::any(), col: kani::any() };
+    kani::assume(ins_pos.row < 4 && ins_pos.col < 4);
+    kani::assume(empty || (ins_pos.row < wh && ins_pos.col < ww));
+    let probe = Position { row: kani::any(), col: kani::any() };
+    kani::assume(probe.row < 5 && probe.col < 5);
+    let mut got_probe: Option<u8> = None;
+    let mut count = 0usize;
+    let mut order_ok = true;
+    {
+        %s
+        let mut v1 = base.view_mut((ra as isize)..(rb as isize), (ca as isize)..(cb as isize));
+        let mut v = v1.view_mut((ra2 as isize)..(rb2 as isize), (ca2 as isize)..(cb2 as isize));
+        assert!(v.height() == wh && v.width() == ww);
+        %s
+    }
+    let data = surf.to_vec();
+    let mut r = 0;
+    while r < H {
+        let mut c = 0;
+        while c < W {
+            let old = (r * W + c + 1) as u8;
+            let cell = data[r * W + c];
+            let inside = if empty { None } else { in_window(T, r, c, rw, cw) };
+            match ("%s", inside) {
+                ("fill", Some(_)) => assert!(cell == 99),
+                ("clear", Some(_)) => assert!(cell == 0),
+                _ => assert!(cell == old),
+            }
+            c += 1;
+        }
+        r += 1;
+    }
+    if "%s" == "get" {
+        let want = if !empty && probe.row < wh && probe.col < ww { Some(root_value(T, rw, cw, probe.row, probe.col)) } else { None };
+        assert!(got_probe == want);
+    }
+    kani::cover!(wh >= 1 && ww == 2);
+}
+''' % (tname, op, fns, op, tname, op, "true" if t else "false", base, code, op, op)
+
 parts = [HEAD]
+for t in (False, True):
+    for op in ("fill", "get"):
+        parts.append(chain_harness(t, op))
 for t in (False, True):
     for op in ("fill", "clear", "insert", "get", "iter"):
         parts.append(harness(t, op))
